@@ -112,6 +112,38 @@ Proof.
     specialize (He' (S f) cr o es0 fr ltac:(lia)). rewrite ev_S in He'. exact He'.
 Qed.
 
+(** a rule whose body is a character class is known by what it accepts, not by how the class is
+    spelled in the grammar (so [,;] and [;,] are the same to every lemma below) *)
+Definition ascii_codes : list Z := map Z.of_nat (seq 0 128).
+
+Lemma ascii_in_codes : forall c, ascii c -> In c ascii_codes.
+Proof.
+  intros c [H0 H1]. unfold ascii_codes. replace c with (Z.of_nat (Z.to_nat c)) by lia.
+  apply in_map. apply in_seq. lia.
+Qed.
+
+Lemma matches_char_ext : forall e p q k,
+  (forall c, ascii c -> p c = q c) -> matches_char e p k -> matches_char e q k.
+Proof.
+  intros e p q k Hpq (Hm & Hn & He). split; [|split].
+  - intros f cr c t o es fr Hf Hc Hq Ht. apply Hm; try assumption. rewrite (Hpq c Hc). exact Hq.
+  - intros f cr c t o es fr Hf Hc Hq. apply Hn; try assumption. rewrite (Hpq c Hc). exact Hq.
+  - exact He.
+Qed.
+
+Definition class_rule (i : nat) (p : Z -> bool) : Prop :=
+  exists chars ranges, nth_error rules i = Some (CClass chars ranges false)
+    /\ forallb (fun c => Bool.eqb (in_chars c chars || in_ranges c ranges) (p c)) ascii_codes = true.
+
+Lemma class_rule_matches : forall i p, class_rule i p -> matches_char (CRef i) p 2.
+Proof.
+  intros i p (chars & ranges & Hb & Hall).
+  apply (ref_matches i _ _ 1 Hb).
+  apply (matches_char_ext _ (fun c => in_chars c chars || in_ranges c ranges)); [|apply class_matches].
+  intros c Hc. rewrite forallb_forall in Hall. specialize (Hall c (ascii_in_codes c Hc)).
+  apply Bool.eqb_prop in Hall. exact Hall.
+Qed.
+
 (** what follows a run of [p]-characters: end of input, or an ASCII character not in [p] *)
 Definition stops (p : Z -> bool) (t : bytes) : Prop :=
   match t with [] => True | c :: _ => ascii c /\ p c = false end.
@@ -164,21 +196,19 @@ Lemma identifier_rule_shape :
      Some (CAct AIdentifier1
             (CSeq [CPlus (CChoice [CRef id_Letter; CLit [95]]);
                    CStar (CChoice [CRef id_Letter; CRef id_Digit; CClass [46; 95] [] false])]))
-  /\ nth_error rules id_Letter = Some (CClass [] [(65, 90); (97, 122)] false)
-  /\ nth_error rules id_Digit = Some (CClass [] [(48, 57)] false).
-Proof. vm_compute. repeat split; reflexivity. Qed.
+  /\ class_rule id_Letter p_letter
+  /\ class_rule id_Digit p_digit.
+Proof.
+  split; [vm_compute; reflexivity|]. split; [vm_compute; reflexivity|]. split; [vm_compute; reflexivity|].
+  split; [vm_compute; reflexivity|].
+  split; (eexists; eexists; split; [vm_compute; reflexivity | vm_compute; reflexivity]).
+Qed.
 
 Lemma letter_matches : matches_char (CRef id_Letter) p_letter 2.
-Proof.
-  destruct identifier_rule_shape as (_ & _ & _ & _ & HL & _).
-  exact (ref_matches id_Letter _ _ 1 HL (class_matches [] [(65, 90); (97, 122)])).
-Qed.
+Proof. destruct identifier_rule_shape as (_ & _ & _ & _ & HL & _). exact (class_rule_matches _ _ HL). Qed.
 
 Lemma digit_matches : matches_char (CRef id_Digit) p_digit 2.
-Proof.
-  destruct identifier_rule_shape as (_ & _ & _ & _ & _ & HD).
-  exact (ref_matches id_Digit _ _ 1 HD (class_matches [] [(48, 57)])).
-Qed.
+Proof. destruct identifier_rule_shape as (_ & _ & _ & _ & _ & HD). exact (class_rule_matches _ _ HD). Qed.
 
 Lemma start_matches : matches_char (CChoice [CRef id_Letter; CLit [95]]) p_start 3.
 Proof.
